@@ -9,6 +9,9 @@ case = (kind, payload):
   ('create', rows, label, tree)              SparkSession.createDataFrame(rows).collect() (schema inferred)
   ('create_rdd', rows, label, tree, slices)  the same with sc.parallelize(rows, slices) as input (SparkSession._inferSchema)
   ('create_s', schema, rows, label)          SparkSession.createDataFrame(rows, schema).collect()
+  ('create_named', rows, names, path, flavour, slices, label, tree)
+                                             createDataFrame(rows | sc.parallelize(rows, slices), names).collect(); rows are
+                                             Row(**kw) / Row(*names)(*values) / namedtuples / plain tuples (flavour)
   ('row', value)                             pickle round trip, asDict(), asDict(True) of a Row
 
 Encodings shared with coq/Run/C19_run.v:
@@ -18,6 +21,7 @@ Encodings shared with coq/Run/C19_run.v:
   values     None/bool/int/float/str, list, ('bytearray', b) ('bytes', b) ('Decimal', str) ('date', ordinal)
              ('datetime', microseconds, None | utc offset seconds) ('tuple', [..]) ('dict', [(k, v)]) ('Row', [names], [values])
 """
+import collections
 import datetime
 import decimal
 import glob
@@ -50,7 +54,8 @@ RULE = ('type trees: all 16 leaves (12 atomic types, 4 decimals), every depth-1 
         'position holding a null exactly there, random rows with nulls, through createDataFrame with the schema '
         'inferred (list input and sc.parallelize input) and with the explicit schema; late-typed rows (a position that '
         'is None / [] / {} / [None] / {k: None} in some rows and populated in another) in every row order; '
-        'explicit schemas with mixed-type fields in non-alphabetical order against Rows re-listed alphabetically / '
+        'a list of column names as schema (own / permuted / fresh / fewer / repeated / no names) over Row(**kw), '
+        'Row(*names)(*values), namedtuples and plain tuples, list and RDD input; explicit schemas with mixed-type fields in non-alphabetical order against Rows re-listed alphabetically / '
         'reversed / shuffled at every nesting level (valid and single-position damaged); single-position damages of a valid row (null in a non-nullable '
         'position incl. map keys, a value of a wrong Python type, an out-of-range integer, wrong arity, missing '
         'field) through createDataFrame(schema) and the verifier directly (struct values as Row/tuple/dict); '
@@ -185,8 +190,28 @@ def dec_val(e):
             return {dec_val(k): dec_val(x) for k, x in e[1]}
         if tag == 'Row':
             return T.create_row(e[1], [dec_val(x) for x in e[2]])
+        if tag == 'namedtuple':
+            return named_class(tuple(e[1]))(*[dec_val(x) for x in e[2]])
         raise ValueError(e)
     return e
+
+
+_NT = {}
+
+
+def named_class(names):
+    if names not in _NT:
+        _NT[names] = collections.namedtuple('NT', names)
+    return _NT[names]
+
+
+def flavoured(enc_row, flavour):
+    """The Python row of a create_named case: the encoded Row / namedtuple / tuple in the requested flavour."""
+    if flavour == 'kw':
+        return T.Row(**dict(zip(enc_row[1], [dec_val(x) for x in enc_row[2]])))
+    if flavour == 'pos':
+        return T.Row(*enc_row[1])(*[dec_val(x) for x in enc_row[2]])
+    return dec_val(enc_row)
 
 
 def same(a, b):
@@ -258,6 +283,8 @@ def impl(case):
             return (enc_type(df.schema), [enc_val(r) for r in out])
         except Exception as e:  # pylint: disable=broad-except
             return exc(e)
+    if kind == 'create_named':
+        return run_named(case[1], case[2], case[3], case[4], case[5])
     if kind == 'create_s':
         try:
             df = SparkSession(Context()).createDataFrame([dec_val(r) for r in case[2]], build_type(case[1]))
@@ -276,6 +303,18 @@ def impl(case):
             b = exc(e)
         return (a, b, enc_val(r.asDict(True)))
     raise ValueError(kind)
+
+
+def run_named(enc_rows_, names, path, flavour, slices):
+    try:
+        rows = [flavoured(r, flavour) for r in enc_rows_]
+        sc = Context()
+        data = sc.parallelize(rows, slices) if path == 'rdd' else rows
+        df = SparkSession(sc).createDataFrame(data, list(names) if flavour != 'nt' else tuple(names))
+        out = df.collect()
+        return (enc_type(df.schema), [enc_val(r) for r in out])
+    except Exception as e:  # pylint: disable=broad-except
+        return exc(e)
 
 
 # ------------------------------------------------------------------ oracle (implementation only)
@@ -335,6 +374,8 @@ def oracle(case, result):
         return None
     if kind in ('infer', 'create', 'create_rdd'):
         return judge_inference(kind, case, result)
+    if kind == 'create_named':
+        return judge_named(case, result)
     if kind == 'create_s':
         label = case[3]
         rows = [dec_val(r) for r in case[2]]
@@ -477,6 +518,45 @@ def judge_inference(kind, case, result):
     return None
 
 
+def judge_named(case, result):
+    """createDataFrame(rows, [names]) judged on the implementation alone: the collected VALUES are the input values
+    in their original positions (the same for every input flavour as for plain tuples), the field TYPES are those
+    of the inference without a schema, the NAMES are the given names followed by the own (Row / namedtuple) or _N
+    (tuple) names of the remaining positions."""
+    _, enc_rows_, names, path, flavour, slices, _, t = case
+    if flavour == 'tuple' and len(set(names)) < len(names):
+        # plain tuples are inferred UNDER the given names: repeated names merge distinct columns by name (as in
+        # Spark); nothing is demanded there, the correspondence still compares
+        return None
+    rows = [flavoured(r, flavour) for r in enc_rows_]
+    values = [tuple(r) for r in rows]
+    site = f'create-named-{path}'
+    determined = bool(rows) and all_determined(t, values) and (path != 'rdd' or bool(rows[0]))
+    if isinstance(result, Err):
+        if determined:
+            return (f'{site}:raises-{result.name}:{flavour}', f'createDataFrame({rows!r}, {names!r})')
+        return None if result.name in ('ValueError', 'StopIteration') else (f'{site}:raises:{result.name}', repr(rows))
+    out = [dec_val(r) for r in result[1]]
+    width = len(values[0])
+    own = [f'_{i}' for i in range(1, width + 1)] if flavour == 'tuple' else list(enc_rows_[0][1])
+    want_names = list(names) + own[len(names):]
+    if len(out) != len(rows):
+        return (f'{site}:collect-differs:{flavour}', f'{rows!r} under {names!r} came back as {out!r}')
+    for a, v in zip(out, values):
+        if list(getattr(a, '__fields__', ())) != want_names:
+            return (f'{site}:names-differ:{flavour}', f'{rows!r} under {names!r} came back as {out!r}, names {want_names!r} expected')
+        if not same(tuple(a), v):
+            return (f'{site}:values-moved:{flavour}', f'{rows!r} under {names!r} came back as {out!r}')
+    try:
+        plain_types = [enc_type(f.dataType) for f in infer_schema_from_list(list(values)).fields]
+    except Exception as e:  # pylint: disable=broad-except
+        return (f'{site}:no-schema-inference-raises-{type(e).__name__}', repr(values))
+    got = result[0][1]
+    if [f[1] for f in got] != plain_types or [f[0] for f in got] != want_names:
+        return (f'{site}:schema-differs:{flavour}', f'{result[0]!r} vs types {plain_types!r} names {want_names!r}')
+    return None
+
+
 def plain(v):
     """Independent statement of asDict(recursive=True): nested Rows (also inside lists and dict values) as dicts."""
     if isinstance(v, T.Row):
@@ -512,6 +592,8 @@ def kind(case):
         return 'parse/' + (case[3] if len(case) > 3 else 'x')
     if case[0] in ('infer', 'create', 'create_rdd'):
         return f'{case[0]}/{case[2]}'
+    if case[0] == 'create_named':
+        return f'create_named/{case[3]}/{case[4]}'
     if case[0] == 'create_s':
         return f'create_s/{case[3].partition(":")[0]}'
     if case[0] == 'verify':
@@ -1189,6 +1271,57 @@ def corpus_cases():
     return out
 
 
+SAFE_NAMES = ['a', 'b', 'c', 'k', 'x', 'y', 'some_col', 'v', 'w']
+
+
+def named_cases(rng, quick):
+    """createDataFrame(rows, [names]) over Row(**kw), Row(*names)(*values), namedtuples and plain tuples, through the
+    list and the RDD path: full rows, nulls, late-typed rows; name lists: the rows' own names, a permutation of
+    them, fresh names, fewer names, repeated names, no name."""
+    cases = []
+    while True:
+        n = rng.randint(1, 4)
+        own = rng.sample(SAFE_NAMES, n)
+        t = ('struct', [(nm, rand_tree(rng, rng.choice([0, 0, 1, 2]), struct_bias=0.3), True, ([],)) for nm in own])
+        if valuable(t) and not has_leaf(t, 'null') and safe_inner_names(t):
+            break
+    full = gen_value(rng, t, False, 0.0, 1, respect=False)
+    variants = [rb(None) for rb, _, nn, x, is_key in list(positions(t, full, False, respect=False))[1:]
+                if nn and x is not None and not is_key]
+    blanks = []
+    for rb, tt, _, x, is_key in list(positions(t, full, False, respect=False))[1:]:
+        if not is_key and x is not None and tname(tt) in ('array', 'map'):
+            blanks += [rb([] if tname(tt) == 'array' else {}), rb([None] if tname(tt) == 'array' else {k: None for k in x})]
+    row_sets = [[full] + rng.sample(variants, min(len(variants), 3)),
+                [gen_value(rng, t, False, 0.3, 0, respect=False) for _ in range(rng.randint(1, 3))]]
+    if blanks:
+        row_sets.append(rng.sample(blanks, min(len(blanks), 2)) + [full])
+    fresh = rng.sample(['n1', 'n2', 'n3', 'n4', 'col', 'z'], n)
+    perm = own[:]
+    rng.shuffle(perm)
+    name_lists = [own, perm, fresh, fresh[:max(0, n - 1)], ['v'] * n, ['v'] * max(0, n - 1), [], own[::-1]]
+    for rows in row_sets:
+        for names in (name_lists if not quick else rng.sample(name_lists, 4)):
+            for flavour in (('kw', 'pos', 'nt', 'tuple') if not quick else rng.sample(['kw', 'pos', 'nt', 'tuple'], 2)):
+                order = sorted(range(n), key=lambda i: own[i]) if flavour == 'kw' else list(range(n))
+                tt = ('struct', [t[1][i] for i in order])
+                enc = []
+                for r in rows:
+                    vals = [enc_val(tuple(r)[i]) for i in order]
+                    if flavour == 'tuple':
+                        enc.append(('tuple', vals))
+                    else:
+                        enc.append(('namedtuple' if flavour == 'nt' else 'Row', [own[i] for i in order], vals))
+                path = rng.choice(['local', 'rdd'])
+                cases.append(('create_named', enc, list(names), path, flavour, rng.randint(1, 3), 'named', tt))
+    return cases
+
+
+def safe_inner_names(t):
+    """Field names usable as keyword arguments / namedtuple fields at the top level only; nested structs unrestricted."""
+    return all(f[0] in SAFE_NAMES for f in t[1])
+
+
 def generate(rng, tier):
     quick = tier == 'quick'
     cases = corpus_cases()
@@ -1234,6 +1367,8 @@ def generate(rng, tier):
         cases.extend(verify_cases(rng, t, quick))
     for _ in range(60 if quick else 1200):
         cases.extend(reordered_cases(rng, mixed_struct(rng, None, rng.choice([1, 1, 2, 3])), quick))
+    for _ in range(40 if quick else 600):
+        cases.extend(named_cases(rng, quick))
     cases.extend(row_cases(rng, 80 if quick else 1500))
     cases.extend(merge_cases(rng, trees + d1[:50], 150 if quick else 3000))
     return cases
@@ -1254,6 +1389,9 @@ def shrink_candidates(case):
                     yield ('json', f[1])
                     if f[3] != ([],):
                         yield ('json', ('struct', e[1][:i] + [(f[0], f[1], f[2], ([],))] + e[1][i + 1:]))
+    if case[0] == 'create_named' and len(case[1]) > 1:
+        for i in range(len(case[1])):
+            yield (case[0], case[1][:i] + case[1][i + 1:]) + tuple(case[2:])
     if case[0] in ('create', 'infer', 'create_rdd'):
         rows = case[1]
         if len(rows) > 1:
